@@ -158,3 +158,18 @@ func lemmaTypedEqualsRawI64(a *I64, idx int32) (int64, bool, []byte, bool) {
 	bs, g := a.GetBytes(idx, 8)
 	return v, f, bs, g
 }
+
+// ---------------------------------------------------------------------------
+// InitIndex (C16): a list that is not strictly ascending is rejected with the dedicated error and nothing is built.
+
+//@ func (*Base).InitIndex
+//@   property C16
+//@   opt kinds=post,frame
+//@   requires a != nil && len(index) <= 100000000
+//@   modifies a.Bitmaps, a.Offsets, a.Cnt
+//@   loop 1 invariant 0 <= i && forall(k, 0, i, index[k] < index[k+1]) && a.Cnt == old(a.Cnt) && sameslice(a.Bitmaps, old(a.Bitmaps)) && sameslice(a.Offsets, old(a.Offsets))
+//@   loop 2 invariant fresh(a.Offsets) && fresh(a.Bitmaps) && int(a.Cnt) == len(index)
+//@   loop 2 invariant forall(k, 0, len(index)-1, index[k] < index[k+1])
+//@   ensures exists(k, 0, len(index)-1, index[k] >= index[k+1]) ==> result == ErrIndexNotAscending
+//@   ensures result != nil ==> a.Cnt == old(a.Cnt) && sameslice(a.Bitmaps, old(a.Bitmaps)) && sameslice(a.Offsets, old(a.Offsets))
+//@   ensures result == nil ==> int(a.Cnt) == len(index)
